@@ -6,11 +6,15 @@ Implementation driven (in-process, real code):
   include_default=True)  -> get_component_variables, override_object, inject_default_values_to_component,
   fill_in / interpolate, convert_component_types.
 
-Compared with coq/Conf/Model.v (resolve_raw, resolve) inside Coq (check_case), and checked directly against the
-property predicates (precedence per leaf path, no leak between platforms/stages, interpolation, types).
+Compared with coq/Conf/Model.v (resolve_raw, resolve: one-pass interpolation) AND coq/Conf/Rescan.v (resolve_rs: the
+re-scanning loop of FlowIR.interpolate) inside Coq (check_case_both; check_case_rs alone for the cases whose text
+carries a literal '%' next to a reference, where only the re-scanning model is faithful), and checked directly
+against the property predicates (precedence per leaf path, no leak between platforms/stages, interpolation, types).
+FlowIR.interpolate itself is also driven on generated (variables, string) pairs whose values are built from
+fragments of the reference syntax ('%', '%(', ')s', names), compared with Rescan.interp_string_rs (check_interp_rs).
 
 Not covered (never generated): array-index expansion (`[`), the `interpreter` rewrite, memory/qos converters,
-float literals inside strings, literal '%' next to references (re-scan after substitution)."""
+float literals inside strings."""
 import copy
 import glob
 import json
@@ -27,15 +31,19 @@ COQ_DIR = 'Conf'
 ASSUMPTIONS = [
     'the table of built-in defaults is not part of the model: FlowIR.default_component_structure() is read from the '
     'running code on every run and passed to the model as the parameter dflt',
-    'model of interpolate is a single left-to-right pass (the code re-scans after each substitution); the generators '
-    'use literal text without % [ ] so that both coincide; array-index expansion and the interpreter rewrite are '
-    'not modelled and never generated',
+    'two models of interpolate are compared: the single left-to-right pass of Model.v (theorem C04_interp) and the '
+    're-scanning loop of Rescan.v (theorem C04_rescan), proved equal on text without literal % (C04_rescan_one_pass); '
+    'cases with literal % next to references are compared with the re-scanning model only; its loop fuel is '
+    'len(string)+1+64 (a case in which the code substitutes more often would show as a disagreement); array-index '
+    'expansion ([ ]) and the interpreter rewrite are not modelled and never generated',
+    'a call of FlowIR.interpolate that runs longer than 5 s (text growing by repeated substitution) is counted and not compared',
     'exceptions are compared by class (and variable name for FlowIRVariableUnknown / FlowIRVariableInvalid); '
     'RecursionError of the implementation corresponds to fuel exhaustion (fuel = number of variables + 1) of the model',
     'the component field `override` is carried through by the implementation and removed before comparing',
 ]
-HEADER = 'Require Import V.Lib.JTree V.Conf.Model.\nOpen Scope string_scope.'
-CHECKER = 'check_case'
+HEADER = 'Require Import V.Lib.JTree V.Conf.Model V.Conf.Rescan.\nOpen Scope string_scope.'
+CHECKER = 'check_case_both'
+CHECKER_RS = 'check_case_rs'
 CORPUS = os.path.join(os.path.dirname(os.path.abspath(__file__)), 'corpus', 'c04')
 
 VAR_RE = re.compile(r'%\(([a-zA-Z0-9_.-]+)\)s')
@@ -301,6 +309,17 @@ def gen_case(rng, dens=None):
         od, _ = layer_slot(doc, files, 'comp')
         if rng.random() < 0.7:
             put(od, ('command', 'arguments'), 'use %(v2)s')
+    elif r < 0.33 and strsites:
+        # literal '%' / '%(' supplied by a variable: the substitution completes a NEW reference (to v<j>, defined or
+        # not) with the text that follows it; only a resolver that scans the text again resolves it
+        inj = 'rescan'
+        _, vd = layer_slot(doc, files, 'cv')
+        vd['pc'] = '%'
+        vd['op'] = '%('
+        for _k in range(rng.choice([1, 1, 2])):
+            s = rng.choice(strsites)
+            j = rng.randrange(0, 7)
+            put(s[2], s[3], get(s[2], s[3]) + rng.choice([' %%(pc)s(v%d)s', ' %%(op)sv%d)s', '%%(op)sv%d)s-']) % j)
     prune(doc['blueprint'])
     prune(doc['variables'])
     for c in doc['components']:
@@ -337,7 +356,10 @@ def gen_case(rng, dens=None):
         for c in doc['components']:
             c['stage'] = 1 - c['stage']
         doc['components'].sort(key=lambda c: c['stage'])
-    return {'platform': platform, 'stage': stage, 'name': 'c', 'doc': doc, 'files': files, 'inj': inj}
+    out = {'platform': platform, 'stage': stage, 'name': 'c', 'doc': doc, 'files': files, 'inj': inj}
+    if inj == 'rescan':
+        out['rescan'] = True
+    return out
 
 
 def strip_foreign(case):
@@ -544,6 +566,9 @@ def predicates(ctx, case, oraw, ores, builtin, o_stripped, classes):
             if any(m.group(1) in V for m in VAR_RE.finditer(s)):
                 ctx.fail(rep, 'a reference to a defined variable remains after resolution', classes)
                 break
+            if any('.' not in m.group(1) for m in VAR_RE.finditer(s)):
+                ctx.fail(rep, 'a reference to an (undefined) variable was left in place', classes)
+                break
         # ---- C04_types
         for p, t in PY_TYPES.items():
             before, after = get(R, p), get(T, p)
@@ -557,7 +582,9 @@ def predicates(ctx, case, oraw, ores, builtin, o_stripped, classes):
             if isinstance(before, str) and '%' not in before and before.lower() in ('false', 'no') and after is not False:
                 ctx.fail(rep, 'boolean option %s given as "%s" resolves to %r' % ('.'.join(p), before, after), classes)
     elif ores[1] == 'FlowIRVariableUnknown':
-        if ores[2] in V or ores[2] not in refs:
+        # (with a literal '%' in a value a reference can come into being during the substitution: then only
+        #  "is undefined" is checked, as in theorem C04_rescan)
+        if ores[2] in V or (ores[2] not in refs and not case.get('rescan')):
             ctx.fail(rep, 'the variable reported as unknown is defined or not referenced', classes)
     elif case.get('inj') in ('none', 'undef') and not undefined:
         ctx.fail(rep, 'resolution failed (%s) although every referenced variable is defined' % ores[1], classes)
@@ -650,16 +677,141 @@ def _explore(ctx, cases, metamorphic=True):
     finally:
         impl.close()
     header = HEADER + '\nDefinition DFLT : jv := %s.' % cjv(dflt)
-    bad = ctx.model_mismatches(header, terms, CHECKER, chunk=40)
+    plain = [i for i, (c, _a, _b) in enumerate(kept) if not c.get('rescan')]
+    resc = [i for i, (c, _a, _b) in enumerate(kept) if c.get('rescan')]
+    bad = [plain[j] for j in ctx.model_mismatches(header, [terms[i] for i in plain], CHECKER, chunk=40)]
+    if resc:
+        bad += [resc[j] for j in ctx.model_mismatches(header, [terms[i] for i in resc], CHECKER_RS, chunk=40,
+                                                      name='model_rs')]
+    bad.sort()
     for k, i in enumerate(bad):
         case, oraw, ores = kept[i]
         model = ''
         if k < 2:
             model = ctx.model_eval(header, 'run_case (fst %s)' % terms[i])[-1500:]
+            if kept[i][0].get('rescan'):
+                model = ctx.model_eval(header, 'let \'(dflt, (b, v, cs), files, p, stage, name) := fst %s in resolve_rs '
+                                       'rs_extra dflt {| d_blueprint := b; d_variables := v; d_components := cs |} files p '
+                                       'stage name' % terms[i])[-1500:]
         ctx.disagree({'platform': case['platform'], 'doc': case['doc'], 'files': case['files'], 'stage': case['stage'],
                       'name': case['name'], 'inj': case.get('inj')},
                      {'raw': oraw if oraw[0] != 'ok' else 'ok', 'resolved': ores}, model,
-                     'C04 get_component_configuration (raw / resolved) vs Conf.Model.resolve_raw / resolve')
+                     'C04 get_component_configuration (raw / resolved) vs Conf.Model.resolve_raw / resolve / Conf.Rescan.resolve_rs')
+
+
+# ------------------------------------------------------------------ FlowIR.interpolate on its own (re-scanning)
+FRAGS = ['%', '%(', ')s', '(', ')', 's', 'a', 'b', 'c', 'd', 'zz', ' ', '-', 'x', '%(a)s', '%(b)s', '%(c)s', '%(d)s',
+         '%(zz)s', '%(flow.x)s', '%(a)', '%%', '%(b', 'a)s', 'c)s', '%(d)s)s']
+SNAMES = ['a', 'b', 'c', 'd']
+
+
+def gen_string_case(rng):
+    """variables a..d (values: fragments of the reference syntax; static references mostly point to later names so
+    that most cases terminate), one string built the same way"""
+    def text(later, n):
+        out = []
+        for _ in range(n):
+            r = rng.random()
+            if r < 0.35 and later:
+                out.append('%%(%s)s' % rng.choice(later))
+            elif r < 0.45:
+                out.append(rng.choice(['%', '%(', ')s']))
+            else:
+                out.append(rng.choice(FRAGS))
+        return ''.join(out)
+    V = {}
+    for i, n in enumerate(SNAMES):
+        r = rng.random()
+        if r < 0.15:
+            continue
+        if r < 0.25:
+            V[n] = rng.choice([3, -7, True, False, 2.5, None, ['k']])
+        elif r < 0.45:
+            V[n] = rng.choice(['%', '%(', ')s', 'A', '%(', '(%s)s' % rng.choice(SNAMES)])
+        else:
+            V[n] = text(SNAMES[i + 1:] + (['zz'] if rng.random() < 0.1 else []), rng.randrange(1, 4))
+    return V, text(SNAMES, rng.randrange(1, 5))
+
+
+class _Timeout(Exception):
+    pass
+
+
+def interp_outcome(F, V, s):
+    import signal
+
+    def onalarm(_sig, _frm):
+        raise _Timeout()
+    old = signal.signal(signal.SIGALRM, onalarm)
+    signal.setitimer(signal.ITIMER_REAL, 5.0)
+    try:
+        return ('ok', F.FlowIR.interpolate(s, copy.deepcopy(V), {}, False, label='x'))
+    except _Timeout:
+        return ('timeout',)
+    except RecursionError:
+        return ('err', 'RecursionError', '')
+    except Exception as e:
+        name = type(e).__name__
+        if name == 'FLowIRSymbolTableNotImplemented':
+            name = 'NotImplementedError'
+        detail = ''
+        if name in ('FlowIRVariableUnknown', 'FlowIRVariableInvalid'):
+            detail = str(getattr(e, 'variable_route', ''))
+        return ('err', name, detail)
+    finally:
+        signal.setitimer(signal.ITIMER_REAL, 0)
+        signal.signal(signal.SIGALRM, old)
+
+
+STRING_CORPUS = [
+    ({'x': '%(', 'y': 'Y'}, '%(x)sy)s'),                      # a substitution completes a reference
+    ({'a': '%(b)s(a)s', 'b': '%'}, '%(a)s'),                  # ... to the variable itself: never ends (Refuted.v)
+    ({'a': '%(b)s(c)s', 'b': '%', 'c': 'C'}, 'u %(a)s'),
+    ({'x': '%', 'y': 'Y'}, '%(x)s(flow.z)s %(y)s'),           # dotted name: stepped over
+    ({'y': 'Y'}, '%(flow.z)s %(y)s %(u)s'),
+    ({'x': '%'}, '%(x)s(u)s'),                                # ... completes a reference to an undefined variable
+    ({'x': '%'}, '%(x)s(y)'),                                 # ... an incomplete reference
+    ({'a': '%(p.q)s'}, '%(a)s'),
+    ({'x': ')s%(x%(x'}, '%(x)s)s)s'),                         # text grows, the loop still ends
+    ({'a': 'A', 'b': '<%(a)s>'}, '%(b)s%(b)s %(a)s'),
+]
+
+
+def _explore_strings(ctx, pairs):
+    import experiment.model.frontends.flowir as F
+    sys.setrecursionlimit(max(sys.getrecursionlimit(), 1000))
+    terms, kept = [], []
+    for V, s in pairs:
+        o = interp_outcome(F, V, s)
+        ctx.count('interpolate-outcome=' + (o[0] if o[0] != 'err' else o[1]))
+        static = [m.group(1) for m in VAR_RE.finditer(s)]
+        ctx.case(['interpolate', V, s], bool(static))
+        if o[0] == 'timeout':
+            continue
+        rep = {'interpolate': s, 'variables': V}
+        # mirror of theorem C04_rescan
+        if o[0] == 'ok':
+            if any('.' not in m.group(1) for m in VAR_RE.finditer(o[1])):
+                ctx.fail(rep, 'interpolate returned text that still holds a reference to a variable', [])
+            if static and '.' not in static[0] and static[0] not in V:
+                ctx.fail(rep, 'interpolate passed over an undefined left-most reference', [])
+        elif o[1] == 'FlowIRVariableUnknown' and o[2] in V:
+            ctx.fail(rep, 'the variable reported as unknown is defined', [])
+        created = o[0] == 'ok' and VAR_RE.search(s) and '%' in ''.join(v for v in V.values() if isinstance(v, str))
+        ctx.count('interpolate-percent-in-values=%s' % bool(created))
+        co = '(inl %s)' % cstr(o[1]) if o[0] == 'ok' else '(inr (%s, %s))' % (cstr(o[1]), cstr(o[2]))
+        terms.append('((%s, %s, %s) : list (string * jv) * string * str_outcome)' % (
+            clist(sorted(V.items()), lambda kv: cpair(cstr(kv[0]), cjv(kv[1]))), cstr(s), co))
+        kept.append((V, s, o))
+    bad = ctx.model_mismatches(HEADER, terms, 'check_interp_rs', chunk=250, name='model_str')
+    for k, i in enumerate(bad):
+        V, s, o = kept[i]
+        model = ''
+        if k < 2:
+            model = ctx.model_eval(HEADER, 'interp_string_rs rs_extra %s %s' % (
+                clist(sorted(V.items()), lambda kv: cpair(cstr(kv[0]), cjv(kv[1]))), cstr(s)))[-800:]
+        ctx.disagree({'interpolate': s, 'variables': V}, list(o), model,
+                     'C04 FlowIR.interpolate vs Conf.Rescan.interp_string_rs')
 
 
 def run(ctx):
@@ -667,9 +819,9 @@ def run(ctx):
                 '(default/platform/foreign-platform global+stage, foreign stage, two user variable files, component, '
                 'override per platform) each defined independently with density 0.15/0.3/0.5, variable chains up to '
                 'depth 5, one injected fault in ~29% of cases (undefined reference 15%, cycle, incomplete, shape clash, '
-                'bad typed text, dotted name, invalid variable value); plus every define/omit pattern of one option and '
+                'bad typed text, dotted name, invalid variable value, 4%: a variable holding % or %( completes a new reference during substitution); plus every define/omit pattern of one option and '
                 'one variable over 8 layers (256 cases) and the corpus; non-trivial = some option or variable is '
-                'defined by >= 2 layers of the selected platform; distinct by (platform, document, files)')
+                'defined by >= 2 layers of the selected platform; distinct by (platform, document, files); plus 500 (thorough 4000) direct calls of FlowIR.interpolate on variables a..d and a string built from fragments of the reference syntax (%, %(, )s, names, complete/incomplete/dotted references)')
     rng = ctx.rng
     n = 900 if ctx.tier == 'quick' else 6000
     cases = corpus_cases()
@@ -679,11 +831,23 @@ def run(ctx):
         cases.append(gen_case(rng))
     _explore(ctx, cases)
     ctx.count('cases', len(cases))
+    pairs = list(STRING_CORPUS)
+    for _ in range(500 if ctx.tier == 'quick' else 4000):
+        pairs.append(gen_string_case(rng))
+    _explore_strings(ctx, pairs)
+    ctx.count('interpolate_cases', len(pairs))
 
 
 def replay(ctx, path):
     d = json.load(open(path))
     c = d.get('case') or d.get('first', {}).get('case')
+    if isinstance(c, dict) and 'interpolate' in c:
+        _explore_strings(ctx, [(c['variables'], c['interpolate'])])
+        for f in ctx.failures:
+            print('REPRODUCED: %s' % f['what'])
+        for f in ctx.disagreements:
+            print('DISAGREEMENT: impl=%s model=%s' % (f['impl'], str(f['model'])[-600:]))
+        return 1 if (ctx.failures or ctx.disagreements) else 0
     if not isinstance(c, dict) or 'doc' not in c:
         print('replay file names no input (proof obligation): re-run ./check C04')
         return 2
